@@ -48,10 +48,11 @@ Record drow : Set := { dr_label : nat; dr_onset : option Z; dr_body : body }.
 (* text of a string handed to the string validator, as a list of pieces joined with ",":
    PJoin ids       HedString.from_hed_strings of the row's cell objects (_run_checks);
    PCells ids      the row text of series_a: the cells joined with ", " and parsed as ONE string;
-   PRem ids        the same row after delay_string.remove(delay groups) (str(delay_string));
+   PRem ids ks     the same row after delay_string.remove(to_remove) (str(delay_string)); ks = the positions
+                   (among the row's top-level Delay groups) of the groups that were removed;
    PDelay ids k    str() of the k-th top-level Delay group of that row. *)
 Inductive piece : Set :=
-| PJoin (ids : list N) | PCells (ids : list N) | PRem (ids : list N) | PDelay (ids : list N) (k : nat).
+| PJoin (ids : list N) | PCells (ids : list N) | PRem (ids : list N) (ks : list nat) | PDelay (ids : list N) (k : nat).
 Definition ann := list piece.
 
 (* a row of split_df: onset (after the Delay shift), HED, original_index *)
@@ -62,7 +63,10 @@ Record config : Set := {
   cf_has_onset : bool;   (* "onset" in columns *)
   cf_has_refs : bool;    (* the sidecar has (one) curly-brace column reference *)
   cf_cats : list N;      (* categorical columns in column_metadata() order *)
-  cf_fixed : bool        (* true: conversion looks the unit up case-insensitively (repaired behaviour) *)
+  cf_fixed : bool;       (* true: conversion looks the unit up case-insensitively (fix f83491d) *)
+  cf_fix_none : bool;    (* true: a Delay value without conversion (None) leaves its group in place (fix-F2) *)
+  cf_fix_value : bool;   (* true: a non-numeric Delay value or onset leaves the group in place (fix-F3) *)
+  cf_fix_mask : bool     (* true: the onset mask of _run_checks is indexed by row label (fix-F4) *)
 }.
 
 (* ------------------------------------------------------------------ units *)
@@ -150,39 +154,56 @@ Definition realign (data : list drow) : list drow :=
 Definition ids_of (b : body) : list N :=
   map c_id (filter (fun c => negb (c_skip c)) (b_cells b)).
 
-Definition base_piece (b : body) : piece :=
-  if b_delaytext b then PRem (ids_of b) else PCells (ids_of b).
+(* one iteration of the inner loop of split_delay_tags: Ok (Some t) = the group moves to time t,
+   Ok None = the group stays in its row (repaired code only), Exn = the loop raises.
+   unrepaired:   onset_mod = tag.value_as_default_unit() + float(onsets[i])
+   fix-F2:       delay = tag.value_as_default_unit(); if delay is None: continue
+   fix-F3:       try: delay = ...; onset = float(onsets[i])   except ValueError: continue
+                 if delay is None or math.isnan(onset): continue *)
+Definition delay_decision (cfg : config) (o : option Z) (d : delay) : res (option Z) :=
+  let value := value_as_default_unit (cf_fixed cfg) d in
+  let onset := match o with Some z => Ok z | None => Exn ValueError end in   (* float("n/a") *)
+  if cf_fix_value cfg then
+    match value with
+    | Exn ValueError => Ok None
+    | Exn e => Exn e
+    | Ok v =>
+        match onset with
+        | Exn _ => Ok None
+        | Ok z => match v with
+                  | Some v' => Ok (Some (v' + z)%Z)
+                  | None => if cf_fix_none cfg then Ok None else Exn TypeError   (* None + float *)
+                  end
+        end
+    end
+  else
+    let* v := value in
+    match v with
+    | None => if cf_fix_none cfg then Ok None else (let* _ := onset in Exn TypeError)
+    | Some v' => let* z := onset in Ok (Some (v' + z)%Z)
+    end.
 
-(* inner loop of split_delay_tags: onset_mod = tag.value_as_default_unit() + float(onsets[i]) *)
-Fixpoint delay_rows (fixed : bool) (o : option Z) (lbl : nat) (ids : list N) (k : nat)
-         (ds : list delay) : res (list srow) :=
+(* inner loop of split_delay_tags for one row: the pseudo rows and the positions of the removed groups *)
+Fixpoint delay_rows (cfg : config) (o : option Z) (lbl : nat) (ids : list N) (k : nat)
+         (ds : list delay) : res (list srow * list nat) :=
   match ds with
-  | [] => Ok []
+  | [] => Ok ([], [])
   | d :: ds' =>
-      let* v := value_as_default_unit fixed d in
-      let* o' := match o with Some z => Ok z | None => Exn ValueError end in   (* float("n/a") *)
-      match v with
-      | None => Exn TypeError                                                   (* None + float *)
-      | Some v' =>
-          let* rest := delay_rows fixed o lbl ids (S k) ds' in
-          Ok ({| s_time := Some (v' + o')%Z; s_ann := [PDelay ids k]; s_orig := lbl |} :: rest)
+      let* dec := delay_decision cfg o d in
+      let* rest := delay_rows cfg o lbl ids (S k) ds' in
+      match dec with
+      | Some t => Ok ({| s_time := Some t; s_ann := [PDelay ids k]; s_orig := lbl |} :: fst rest, k :: snd rest)
+      | None => Ok rest
       end
   end.
 
-Fixpoint pseudo_rows (fixed : bool) (data : list drow) : res (list srow) :=
-  match data with
-  | [] => Ok []
-  | d :: data' =>
-      let* here := if b_delaytext (dr_body d)
-                   then delay_rows fixed (dr_onset d) (dr_label d) (ids_of (dr_body d)) 0
-                                   (b_delays (dr_body d))
-                   else Ok [] in
-      let* rest := pseudo_rows fixed data' in
-      Ok (here ++ rest)
-  end.
-
-Definition base_rows (data : list drow) : list srow :=
-  map (fun d => {| s_time := dr_onset d; s_ann := [base_piece (dr_body d)]; s_orig := dr_label d |}) data.
+(* one row of the series: its own row of split_df (HED updated) and the appended pseudo rows *)
+Definition split_row (cfg : config) (d : drow) : res (srow * list srow) :=
+  let ids := ids_of (dr_body d) in
+  if b_delaytext (dr_body d)
+  then let* r := delay_rows cfg (dr_onset d) (dr_label d) ids 0 (b_delays (dr_body d)) in
+       Ok ({| s_time := dr_onset d; s_ann := [PRem ids (snd r)]; s_orig := dr_label d |}, fst r)
+  else Ok ({| s_time := dr_onset d; s_ann := [PCells ids]; s_orig := dr_label d |}, []).
 
 Definition blank (r : srow) : srow := {| s_time := s_time r; s_ann := []; s_orig := s_orig r |}.
 
@@ -209,12 +230,14 @@ Fixpoint merge_same_onset (l : list srow) : list srow :=
       end
   end.
 
-(* df_util.split_delay_tags *)
-Definition split_delay_tags (fixed : bool) (data : list drow) : res (list srow) :=
-  let* ps := pseudo_rows fixed data in
-  Ok (merge_same_onset (sort_by s_time (base_rows data ++ ps))).
+(* df_util.split_delay_tags: rows of the series first, pseudo rows appended in processing order *)
+Definition split_delay_tags (cfg : config) (data : list drow) : res (list srow) :=
+  let* rs := mapM (split_row cfg) data in
+  Ok (merge_same_onset (sort_by s_time (map fst rs ++ concat (map snd rs)))).
 
 Definition is_some {A} (o : option A) : bool := match o with Some _ => true | None => false end.
+
+Inductive mask_kind : Set := MPos (m : list bool) | MLabel.
 
 (* ------------------------------------------------------------------ issues *)
 
@@ -261,8 +284,20 @@ Section Validate.
              (map (fun x => mk (SBasic x) (Some rl) (Some (c_col c))) b ++ iss, last')
     end.
 
+  (* onset_mask[row]: unrepaired = onset_mask.iloc[row_number] on the mask of the SORTED SPLIT frame;
+     repaired (fix-F4) = onset_mask.loc[row_number] on a mask with the index of the frame being iterated
+     (unique labels), i.e. the row's own "onset is numeric" flag *)
+  Definition mask_lookup (mask : mask_kind) (d : drow) : res bool :=
+    match mask with
+    | MPos m => match nth_error m (dr_label d) with
+                | Some b => Ok b
+                | None => Exn IndexError
+                end
+    | MLabel => Ok (is_some (dr_onset d))
+    end.
+
   (* one iteration of the row loop of _run_checks: issues, and whether the row joins invalid_original_rows *)
-  Definition row_checks (adj : nat) (mask : option (list bool)) (d : drow) : res (list issue * bool) :=
+  Definition row_checks (adj : nat) (mask : option mask_kind) (d : drow) : res (list issue * bool) :=
     let rl := dr_label d + adj in
     let '(iss, last) := cells_loop rl (b_cells (dr_body d)) [] in
     if existsb raw_is_error last then Ok (iss, true)
@@ -272,10 +307,7 @@ Section Validate.
                    | [] => Ok true                             (* not row_strings *)
                    | _ => match mask with
                           | None => Ok false
-                          | Some m => match nth_error m (dr_label d) with   (* onset_mask.iloc[row_number] *)
-                                      | Some b => Ok b
-                                      | None => Exn IndexError
-                                      end
+                          | Some m => mask_lookup m d
                           end
                    end in
       if skip then Ok (iss, false)
@@ -287,7 +319,7 @@ Section Validate.
         else Ok (iss, false).
 
   (* _run_checks: issues and invalid_original_rows *)
-  Fixpoint run_checks (adj : nat) (mask : option (list bool)) (data : list drow)
+  Fixpoint run_checks (adj : nat) (mask : option mask_kind) (data : list drow)
     : res (list issue * list nat) :=
     match data with
     | [] => Ok ([], [])
@@ -352,9 +384,10 @@ Section Validate.
     let unord := if needs_sorting cfg t then [mk SUnordered None None] else [] in
     let data_a := frame cfg t in
     let* onsets := if cf_has_onset cfg
-                   then (let* sp := split_delay_tags (cf_fixed cfg) data_a in Ok (Some sp))
+                   then (let* sp := split_delay_tags cfg data_a in Ok (Some sp))
                    else Ok None in
-    let mask := option_map (map (fun r => is_some (s_time r))) onsets in
+    let mask := option_map (fun sp => if cf_fix_mask cfg then MLabel
+                                      else MPos (map (fun r => is_some (s_time r)) sp)) onsets in
     let* ci := run_checks adj mask data_a in
     let oi := match onsets with
               | Some rows => onset_checks adj (snd ci) tinit rows
